@@ -19,7 +19,7 @@ ASSUME MasksDisjoint == \A a \in {65287, 65295, 65345} : (WMask(a) & OMask(a)) =
 ASSUME FootprintsAreLocal ==
    \A a \in Reps :
       /\ (a >= 32768 /\ a < 65280 /\ Class(a) # "cart") => Cardinality(Footprint("mbc1", a)) <= 2
-      /\ (a >= 65280 /\ a \notin {65350, 65318, 65310} /\ ~(a >= 65328 /\ a <= 65343)) => Cardinality(Footprint("mbc1", a)) <= 3
+      /\ (a >= 65280 /\ a \notin {65350, 65318, 65310, 65306} /\ ~(a >= 65328 /\ a <= 65343)) => Cardinality(Footprint("mbc1", a)) <= 3
       /\ (a >= 65280 /\ a # 65350) => \A b \in Footprint("mbc1", a) : b >= 65280
 ASSUME UnmappedSet == {a \in Range(65280, 65407) : Class(a) = "unmapped"} =
    {65283} \cup Range(65288, 65294) \cup {65301, 65311} \cup Range(65319, 65327) \cup Range(65356, 65407)
